@@ -310,12 +310,12 @@ Proof.
     { intros mnv mxv Hr. apply (rep_within len (PEG n E) n e mnv mxv p p [] v q); auto; try exact I; try (apply IH; auto). }
     destruct mx as [|[|m]|y].
     + destruct (bound_val E mn) as [a|], (bound_val E BNone) as [b|]; try discriminate.
-      destruct (bounds_conflict a b); try discriminate. eapply Hgen; eauto.
+      destruct (bounds_conflict a b); [match type of H with match ?X with _ => _ end = _ => destruct X; discriminate end|]. eapply Hgen; eauto.
     + inversion H; subst. repeat split; auto; exact I.
     + destruct (bound_val E mn) as [a|], (bound_val E (BLit (S m))) as [b|]; try discriminate.
-      destruct (bounds_conflict a b); try discriminate. eapply Hgen; eauto.
+      destruct (bounds_conflict a b); [match type of H with match ?X with _ => _ end = _ => destruct X; discriminate end|]. eapply Hgen; eauto.
     + destruct (bound_val E mn) as [a|], (bound_val E (BVar y)) as [b|]; try discriminate.
-      destruct (bounds_conflict a b); try discriminate. eapply Hgen; eauto.
+      destruct (bounds_conflict a b); [match type of H with match ?X with _ => _ end = _ => destruct X; discriminate end|]. eapply Hgen; eauto.
   - (* Expect *) contradiction.
   - (* ExpectNot *) destruct (PEG n E e p) as [| | |v1 p1]; try discriminate.
     inversion H; subst. repeat split; auto; exact I.
